@@ -1,5 +1,6 @@
 import ShootVerif.Drive.Loop
 import ShootVerif.Drive.Merge
 import ShootVerif.Drive.GenState
+import ShootVerif.Drive.DetOrder
 open ShootVerif.Drive
-def main : IO Unit := runDriver [("merge", mergeCase), ("genstate", genstateCase)]
+def main : IO Unit := runDriver [("merge", mergeCase), ("genstate", genstateCase), ("detorder", detorderCase), ("genhist", genhistCase)]
